@@ -423,7 +423,29 @@ def rule_carry(ctx):
                   "SessionTicketPayload.parse does not restore %s" % sorted(need - pf), p.loc())
 
 
+def rule_offer_consistency(ctx):
+    """OFFER: the client offers a session only with parameters consistent with it: same SRP user name
+    and server name, and a cipher suite the current settings still allow (meaning of the checks over
+    boundary values, condeval.outcomes)."""
+    from .common import spec_rows
+    R = "C13.OFFER"
+    spec_rows(ctx, R, TLSCONN + "_handshakeClientAsyncHelper", [
+        dict(what="offered session belongs to the same SRP user and server name",
+             dom={"session": [True], "session.valid()": [True], "session.resumable": [True],
+                  "session.srpUsername": [None, "a"], "srpUsername": [None, "a", "b"],
+                  "session.serverName": ["x"], "serverName": ["x", "y", None]},
+             abort=lambda e: e["session.srpUsername"] != e["srpUsername"] or e["session.serverName"] != e["serverName"],
+             msg="a session made for another SRP user or server name must not be offered for resumption")])
+    spec_rows(ctx, R, TLSCONN + "_clientSendClientHello", [
+        dict(what="offered session's cipher suite is still acceptable",
+             dom={"session": [True], "session.sessionID": [b"s"], "session.cipherSuite": [47, 53],
+                  "cipherSuites": [(47,), (53, 47)]},
+             abort=lambda e: e["session.cipherSuite"] not in e["cipherSuites"],
+             msg="a session whose cipher suite the current settings no longer allow must not be offered")])
+
+
 RULES = [
+    ("C13.OFFER", "quick", rule_offer_consistency),
     ("C13.SRV-GATES", "quick", rule_srv_gates),
     ("C13.TICKET", "quick", rule_ticket),
     ("C13.INVALIDATE", "quick", rule_invalidate),
